@@ -2,6 +2,7 @@ package mon
 
 import (
 	"context"
+	"errors"
 	"fmt"
 	"io"
 	"math/rand/v2"
@@ -133,6 +134,8 @@ func runC01(r *kit.Run) {
 	}
 }
 
+var errC01Rejected = errors.New("item rejected")
+
 func c01Case(r *kit.Run, idx int64, rng *rand.Rand) {
 	construct := c01Constructs[int(idx)%len(c01Constructs)]
 	w := c01Workers[rng.IntN(len(c01Workers))]
@@ -143,7 +146,18 @@ func c01Case(r *kit.Run, idx int64, rng *rand.Rand) {
 	}
 	seed := rng.Uint64()
 	procs := kit.ProcsFor(idx / int64(len(c01Constructs)))
-	desc := map[string]any{"construct": construct, "n": n, "workers": w, "source": srcSp.String(), "worker": wrkSp.String(), "consumer": conSp.String(), "gomaxprocs": procs}
+	// how the worker count reaches the configuration: the dedicated option or
+	// a whole WorkerGroupConf; a count below one means one worker
+	wcfg, wvia := w, "WorkerGroupConfNumWorkers"
+	if seed%9 == 0 {
+		wcfg, w = []int{0, -1, -6}[seed/9%3], 1
+	}
+	wopt := fun.WorkerGroupConfNumWorkers(wcfg)
+	if seed%2 == 0 {
+		wvia = "WorkerGroupConfSet"
+		wopt = fun.WorkerGroupConfSet(&fun.WorkerGroupConf{NumWorkers: wcfg})
+	}
+	desc := map[string]any{"construct": construct, "n": n, "workers": w, "configured_workers": wcfg, "configured_through": wvia, "source": srcSp.String(), "worker": wrkSp.String(), "consumer": conSp.String(), "gomaxprocs": procs}
 	obs := &c01Obs{}
 	ctx, cancel := context.WithCancel(context.Background())
 	defer cancel()
@@ -186,15 +200,15 @@ func c01Case(r *kit.Run, idx int64, rng *rand.Rand) {
 		case "ProcessParallel":
 			wantInvoked = true
 			ordered = w == 1
-			obs.resErr = c01Source(n, srcSp, seed).ProcessParallel(proc, fun.WorkerGroupConfNumWorkers(w)).Run(ctx)
+			obs.resErr = c01Source(n, srcSp, seed).ProcessParallel(proc, wopt).Run(ctx)
 		case "ParallelForEach":
 			wantInvoked = true
 			ordered = w == 1
-			obs.resErr = itertool.ParallelForEach(ctx, c01Source(n, srcSp, seed), proc, fun.WorkerGroupConfNumWorkers(w))
+			obs.resErr = itertool.ParallelForEach(ctx, c01Source(n, srcSp, seed), proc, wopt)
 		case "itertool.Process":
 			wantInvoked = true
 			ordered = w == 1
-			obs.resErr = itertool.Process(ctx, c01Source(n, srcSp, seed), proc, fun.WorkerGroupConfNumWorkers(w), fun.WorkerGroupConfContinueOnError())
+			obs.resErr = itertool.Process(ctx, c01Source(n, srcSp, seed), proc, wopt, fun.WorkerGroupConfContinueOnError())
 		case "itertool.Worker":
 			wantInvoked = true
 			ordered = w == 1
@@ -203,11 +217,11 @@ func c01Case(r *kit.Run, idx int64, rng *rand.Rand) {
 				id := i + 1
 				ws[i] = func(ctx context.Context) error { return proc(ctx, id) }
 			}
-			obs.resErr = itertool.Worker(ctx, fun.SliceIterator(ws), fun.WorkerGroupConfNumWorkers(w))
+			obs.resErr = itertool.Worker(ctx, fun.SliceIterator(ws), wopt)
 		case "Map":
 			wantInvoked, wantOut = true, true
 			ordered = w == 1
-			out := fun.Map(c01Source(n, srcSp, seed), func(ctx context.Context, id int) (int, error) { _ = proc(ctx, id); return id, nil }, fun.WorkerGroupConfNumWorkers(w))
+			out := fun.Map(c01Source(n, srcSp, seed), func(ctx context.Context, id int) (int, error) { _ = proc(ctx, id); return id, nil }, wopt)
 			obs.got(drain(ctx, out, conSp, seed, n)...)
 			obs.closeErr = out.Close()
 		case "ParallelBuffer":
@@ -247,9 +261,21 @@ func c01Case(r *kit.Run, idx int64, rng *rand.Rand) {
 				its = append(its, fun.SliceIterator(xs))
 			}
 			ordered = k == 1
+			rejecting := k >= 2 && seed%3 == 0
+			if rejecting {
+				// one more input that ends at once and whose Close() reports an
+				// error although nothing aborted: a continue-on-error Map whose
+				// only item is rejected. The other inputs are still consumed.
+				its = append(its, fun.Map(fun.SliceIterator([]int{0}), func(context.Context, int) (int, error) { return 0, errC01Rejected },
+					fun.WorkerGroupConfNumWorkers(1), fun.WorkerGroupConfContinueOnError()))
+				desc["merge_input_with_rejected_item"] = true
+			}
 			out := fun.MergeIterators(its...)
 			obs.got(drain(ctx, out, conSp, seed, n)...)
 			obs.closeErr = out.Close()
+			if rejecting && errors.Is(obs.closeErr, errC01Rejected) {
+				obs.closeErr = nil // the rejected item's error is the only one expected
+			}
 		case "GenerateParallel":
 			wantOut = true
 			var ctr atomic.Int64
@@ -261,7 +287,7 @@ func c01Case(r *kit.Run, idx int64, rng *rand.Rand) {
 				srcSp.Pace(id, n, seed+uint64(id))
 				return id, nil
 			})
-			out := gen.GenerateParallel(fun.WorkerGroupConfNumWorkers(w))
+			out := gen.GenerateParallel(wopt)
 			obs.got(drain(ctx, out, conSp, seed, n)...)
 			obs.closeErr = out.Close()
 			ordered = false
@@ -352,7 +378,7 @@ func c01Case(r *kit.Run, idx int64, rng *rand.Rand) {
 				b[i] = half + i + 1
 			}
 			in := fun.MergeIterators(fun.SliceIterator(a), fun.SliceIterator(b)).Buffer(w)
-			obs.resErr = in.ProcessParallel(proc, fun.WorkerGroupConfNumWorkers(w)).Run(ctx)
+			obs.resErr = in.ProcessParallel(proc, wopt).Run(ctx)
 		}
 	}
 	done := make(chan struct{})
